@@ -233,6 +233,13 @@ func codeTerm(c int) string {
 // stacks iff bit 15; the error text carries the rejected code
 func (h *histRun) policy(p int) stk.PushPolicy {
 	return func(x ...any) error {
+		// the argument list is the policy's own: whatever it does with it (here: it is
+		// overwritten on the way out) is nobody else's business
+		defer func() {
+			for i := range x {
+				x[i] = "SCRIBBLED-BY-POLICY"
+			}
+		}()
 		var c int
 		if len(x) == 1 {
 			switch tv := x[0].(type) {
